@@ -4,6 +4,13 @@
 # use /repo or run checks meanwhile.
 cd /verif
 out=/verif/work/seeds_report.txt; : > $out
+# the unchanged tree first: a check that alarms there detects nothing
+[ -z "$(git -C /repo status --porcelain)" ] || { echo "/repo is not clean"; exit 2; }
+for id in $(ls -d seeded/*/ | sed 's|seeded/||; s|-.*||' | sort -u); do
+  if [ $# -gt 0 ]; then case " $* " in *" $id "*) ;; *) continue;; esac; fi
+  ./check $id quick > /verif/work/clean_$id.out 2>&1 || { echo "$id ALARMS-ON-THE-UNCHANGED-TREE" | tee -a $out; }
+  rm -f /verif/work/clean_$id.out
+done
 for d in $(ls -d seeded/*/ | sort -V); do
   s=$(basename $d); id=${s%-*}
   if [ $# -gt 0 ]; then case " $* " in *" $id "*) ;; *) continue;; esac; fi
